@@ -196,6 +196,14 @@ def traverseCollect (order : Order) (limit : Nat) (t : Tree K V) : List (K × V)
 def all (t : Tree K V) : List (K × V) :=
   (traverse .ascending (collectVisit 0) t []).2
 
+/-- `for k, v := range t.All() { …; if len(acc) >= limit { break } }` (`0` = never breaks) -/
+def allUntil (limit : Nat) (t : Tree K V) : List (K × V) :=
+  (traverse .ascending (collectVisit limit) t []).2
+
+/-- `Equal(rhs)` when the dynamic type of `rhs` is not the receiver's: `t2, ok := rhs.(*bst[K, V]); if !ok
+{ return false }`, whatever `rhs` holds -/
+def equalOtherKind : Bool := false
+
 /-- `Equal(rhs)` for two trees of the same concrete type -/
 def equal (cmp : K → K → Int) (eqVal : V → V → Bool) (t t2 : Tree K V) : Bool :=
   (traverse .ascending (fun k v (_ : Unit) =>
@@ -748,8 +756,10 @@ def step (kind : Kind) (cmp : K → K → Int) (eqVal : V → V → Bool) (s : S
   | .range lo hi => pure (s, .list (range cmp s.1 lo hi))
   | .rangeSize lo hi => pure (s, .int (rangeSize cmp s.1 lo hi))
   | .all => pure (s, .list (all s.1))
+  | .allUntil limit => pure (s, .list (allUntil limit s.1))
   | .traverse o limit => pure (s, .list (traverseCollect o limit s.1))
   | .equal => pure (s, .bool (equal cmp eqVal s.1 s.2))
+  | .equalOther => pure (s, .bool equalOtherKind)
   | .anyMatch p => pure (s, .bool (anyMatch p s.1))
   | .allMatch p => pure (s, .bool (allMatch p s.1))
   | .firstMatch p => pure (s, .optKV (firstMatch p s.1))
@@ -773,6 +783,10 @@ def runFrom (kind : Kind) (cmp : K → K → Int) (eqVal : V → V → Bool) :
 reverse), and its `eqVal` -/
 def cmpAsc (a b : Int) : Int := if a < b then -1 else if a > b then 1 else 0
 def cmpDesc (a b : Int) : Int := if a > b then -1 else if a < b then 1 else 0
+/-- comparators whose results are not normalised to -1/0/+1 (the code must test the sign, not a constant) -/
+def cmpDiff (a b : Int) : Int := a - b
+def cmpDiff7 (a b : Int) : Int := 7 * (a - b)
+def cmpRDiff (a b : Int) : Int := b - a
 def eqInt (a b : Int) : Bool := a == b
 
 /-- run a history on two fresh tables (`NewBST/NewAVL/NewRedBlack(cmp, eqVal)` twice) -/
